@@ -315,7 +315,7 @@ def check(run):
     run.rule = ('the real monitor main() and the real is_failed() driven on a simulated clock: task durations from seconds to 10 days, random and adversarial round overshoots up to the bound of the theorem, '
                 'worker death at every offset of the refresh schedule, external lock removal, plus a real helper process started by the real lock with a relative jug directory (time.sleep scaled); '
                 'model state (mtime, exit round) compared with the real run; non-trivial = the run crossed at least one refresh; distinct by parameters')
-    run.assumptions = ['a round of the helper overshoots its 5 s sleep by less than the bound Δ of live_never_failed (24 s with today\'s constants, incl. the start-up delay of the helper)',
+    run.assumptions = ['a wake-up of the helper is late by at most 10 s and the helper starts within 59 s of get() (environment assumption, fixed independently of the constants of the code; today\'s constants would tolerate 24 s)',
                        'getppid()/kill(pid, 0) report the death of the worker at the next wake-up', 'a refresh in flight while the helper is being SIGKILLed is not modelled']
     run.trusted = ['Lean 4.33.0 kernel', 'axioms propext, Classical.choice, Quot.sound', 'harness/jugverif/props/c19.py (simulated clock; constants and call order are measured from the behaviour of the real loop)']
     k = extract()
@@ -329,7 +329,7 @@ def check(run):
     if P <= 0 or R <= 0:
         run.obligation('constants extracted', False, str(k))
         return
-    DELTA = 24
+    DELTA = 10   # the environment assumption of constants_safe, not derived from the constants of the code
     # 1. live workers: never failed
     horizons = [30, 301, 3000, 86400, 10 * 86400] if quick else [30, 301, 3000, 20000, 86400, 3 * 86400, 10 * 86400, 30 * 86400]
     for hz in horizons:
